@@ -124,7 +124,9 @@ func HistoryVia(r *vh.Run, name string, t *chainx.Tree, ids *c02.IDs, decls map[
 	rec.OnBeforeFlush = func() {
 		checkCommitted(fmt.Sprintf("before the Flush after %d store ops (batch %d)", storeOps, curBatch))
 	}
+	c02.ProbeNext = kind == "cache" // the CacheDB runs also carry the atomicity probe of chainx
 	rig, err = c02.NewRig(c, t, ids, decls, rec)
+	c02.ProbeNext = false
 	if err != nil {
 		c.Oracle("newdbstore-failed", "%v", err)
 		r.Add(c)
